@@ -233,6 +233,89 @@ package hcldec
 //@ ensures unknownMarks: !isKnownVal(ret0) && len(ret1) == 0 ==> (exists j int :: { content.Blocks[j] } 0 <= j && j < len(content.Blocks) && (forall k iface :: { marked(ret0, k) } bodyMarked(content.Blocks[j].Body, k) ==> marked(ret0, k)))
 //@ loop 1 invariant rangeindex + 1 <= len(content.Blocks) && (rangeindex == 0 - 1 ==> len(elems) == 0)
 
+// ---- walking a specification: every same-body descendant is reached (unit U17h, C07 C08) ----
+// verif:unit U17h props=C07,C08
+// ImpliedSchema, Variables, ChildBlockTypes (and findLabelSpecs) find the attributes, variable
+// references, block types and labels a specification needs by walking it with
+// visitSameBodyChildren and a recursive visitor. A visitor that returns without descending, or a
+// wrapper spec that does not hand over one of its children, silently shrinks the schema (C08: the
+// decoded value no longer has the implied type's attributes) and the reported variable set (C07).
+// Ghost sets: specVisited collects every spec handed to a visit callback, specDescended every spec
+// whose same-body children were asked for.
+// Interface-level hypothesis (trusted): asking any spec for its same-body children records it.
+// verif:ghostvar specVisited ifaceset
+// verif:ghostvar specDescended ifaceset
+// verif:func (visitFunc).call
+//@ trusted
+//@ assigns specVisited, specDescended
+//@ ensures in(spec, specVisited) && (forall m iface :: { in(m, specVisited) } in(m, old(specVisited)) ==> in(m, specVisited))
+//@ ensures (forall m iface :: { in(m, specDescended) } in(m, old(specDescended)) ==> in(m, specDescended))
+// (a callback descends into what it is handed: that is the verified postcondition "descends" of each of
+// the four visitor closures below, which are all the values of this type the package creates)
+//@ ensures in(spec, specDescended)
+// verif:func (Spec).visitSameBodyChildren
+//@ trusted
+//@ assigns specVisited, specDescended
+//@ ensures in(self, specDescended) && (forall m iface :: { in(m, specDescended) } in(m, old(specDescended)) ==> in(m, specDescended))
+//@ ensures (forall m iface :: { in(m, specVisited) } in(m, old(specVisited)) ==> in(m, specVisited))
+// Every wrapper hands each of its same-body children to the callback.
+// verif:func (*DefaultSpec).visitSameBodyChildren
+//@ nosafety
+//@ assigns specVisited, specDescended
+//@ ensures in(s.Primary, specVisited) && in(s.Default, specVisited)
+// verif:func (*TransformExprSpec).visitSameBodyChildren
+//@ nosafety
+//@ assigns specVisited, specDescended
+//@ ensures in(s.Wrapped, specVisited)
+// verif:func (*TransformFuncSpec).visitSameBodyChildren
+//@ nosafety
+//@ assigns specVisited, specDescended
+//@ ensures in(s.Wrapped, specVisited)
+// verif:func (*RefineValueSpec).visitSameBodyChildren
+//@ nosafety
+//@ assigns specVisited, specDescended
+//@ ensures in(s.Wrapped, specVisited)
+// verif:func (*ValidateSpec).visitSameBodyChildren
+//@ nosafety
+//@ assigns specVisited, specDescended
+//@ ensures in(s.Wrapped, specVisited)
+// verif:func (ObjectSpec).visitSameBodyChildren
+//@ nosafety
+//@ assigns specVisited, specDescended
+//@ ensures forall k string :: { has(s, k) } has(s, k) ==> in(s[k], specVisited)
+//@ loop 1 invariant forall k string :: { has(s, k) } visited(k) ==> in(s[k], specVisited)
+// verif:func (TupleSpec).visitSameBodyChildren
+//@ nosafety
+//@ assigns specVisited, specDescended
+//@ ensures forall j int :: { s[j] } 0 <= j && j < len(s) ==> in(s[j], specVisited)
+//@ loop 1 invariant forall j int :: { s[j] } 0 <= j && j <= rangeindex ==> in(s[j], specVisited)
+// Every visitor descends into every spec it is handed, whatever else it does with it.
+// verif:func ImpliedSchema$1
+//@ nosafety
+//@ ensures descends: in(s, specDescended)
+// verif:func ChildBlockTypes$1
+//@ nosafety
+//@ ensures descends: in(s, specDescended)
+// verif:func Variables$1
+//@ nosafety
+//@ ensures descends: in(s, specDescended)
+// verif:func findLabelSpecs$1
+//@ nosafety
+//@ ensures descends: in(s, specDescended)
+// The walks start at the specification itself.
+// verif:func ImpliedSchema
+//@ nosafety
+//@ ensures root: in(spec, specDescended)
+// verif:func ChildBlockTypes
+//@ nosafety
+//@ ensures root: in(spec, specDescended)
+// verif:func Variables
+//@ nosafety
+//@ ensures root: in(spec, specDescended)
+// verif:func findLabelSpecs
+//@ nosafety
+//@ ensures root: in(spec, specDescended)
+
 // verif:unit U18 props=C19
 // Block labels may have been computed from values (dynamic blocks): not source text.
 // verif:dirtystrings hcldec.blockLabel.Value
